@@ -238,6 +238,12 @@ def ev_config(case):
             amp = sum(abs(w) * 2.0 / abs(dn) for w, dn in zip(W, den))
             tol_mu.append(2 * tr_m + amp * C_EPS * EPS * cond * S["mu"] + C_EPS * EPS * abs(float(P["dmu"][i])))
             tol_var.append(2 * tr_v + amp * C_EPS * EPS * cond * S["var"] + C_EPS * EPS * abs(float(P["dvar"][i])))
+            # how sharp the difference oracle is, relative to the magnitude of the terms of the derivative
+            # (only where the derivative is not negligible against function scale / length-scale, i.e. not far from all data)
+            if S["dmu"][i] > 1e-3 * S["mu"] / ls[i]:
+                slack["info/fd-tolerance-over-term-scale/mean"] = max(slack.get("info/fd-tolerance-over-term-scale/mean", 0.0), tol_mu[-1] / S["dmu"][i])
+            if S["dvar"][i] > 1e-3 * S["var"] / ls[i]:
+                slack["info/fd-tolerance-over-term-scale/var"] = max(slack.get("info/fd-tolerance-over-term-scale/var", 0.0), tol_var[-1] / S["dvar"][i])
 
         forms = [("array(1,d)", q.reshape(1, d).copy())]
         if case.get("forms", True):
